@@ -327,11 +327,11 @@ pub fn fairness(scn: &Scenario, out: &WorldOut, stats: &mut BTreeMap<String, u64
 }
 
 fn check(scn: &Scenario, rep: &mut Report, orders: &mut std::collections::HashSet<u64>) {
-    let res = vnet::catch(|| run_world(&scn.world()));
+    let res = run_world_caught(scn.world());
     rep.eval(scn.hash());
     let out = match res {
         Err(p) => {
-            rep.violation("C18/panic-in-server", format!("panic: {p}; {}", scn.describe()), scn.to_json("c18"));
+            world_failure(rep, "C18", &p, format!("{}", scn.describe()), scn.to_json("c18"));
             return;
         }
         Ok(o) => o,
@@ -377,7 +377,7 @@ pub fn run(cfg: &Cfg) -> Report {
     if let Some(r) = &cfg.replay {
         let scn = Scenario::from_json(r);
         check(&scn, &mut rep, &mut orders);
-        rep.notes.push(format!("{:?}", vnet::catch(|| run_world(&scn.world()))));
+        rep.notes.push(format!("{:?}", run_world_caught(scn.world())));
         return rep;
     }
     let mut rng = cfg.rng(181);
